@@ -1,7 +1,7 @@
 (* Props/C09.v — C09: no peer behaviour wedges the endpoint; link loss ends in a clean, reusable state.
    Theorems only.  Model: Model/Endpoint.v (receive path + session handling). *)
 From SG Require Import Base.Prelude Base.Kinds Spec.E37Session Model.StateMachine Model.Secs2 Model.Frames Model.HsmsRx Model.HsmsSession Model.Endpoint
-  Gen.Machines Proofs.RxProofs Proofs.SessionProofs Proofs.EndpointProofs.
+  Gen.Machines Proofs.RxProofs Proofs.SessionProofs Proofs.EndpointProofs Gen.SendQueue Model.SendQueue Proofs.SendQueueProofs.
 Open Scope Z_scope.
 
 (* whatever has arrived - any bytes, cut anywhere - closing the connection in any connected session state leaves the
@@ -25,6 +25,18 @@ Theorem C09_prefix_delivers_whole : forall ms, Forall frame_ok ms -> forall cut,
   exists b blk, drainF (firstn cut (List.concat (map enc_frame ms))) = (b, blk, map (fun m => Delivered (fst m) (snd m)) (whole cut ms), false).
 Proof. exact prefix_delivers_whole. Qed.
 Print Assumptions C09_prefix_delivers_whole.
+
+(* the disconnect handling sends its Separate.req through the send queue: one run of _process_send_queue - as the source is
+   written now (Gen/SendQueue.v, regenerated) - resolves EVERY queued block, however many blocks of however many packets wait
+   there and whichever writes fail, so nothing (and nobody waiting for its block) is left behind a failed one *)
+Theorem C09_send_queue_drained : forall blocks ws, (total blocks <= length ws)%nat ->
+  Forall (fun r => r <> None) (process_queue send_queue_after_failure blocks ws).
+Proof. exact continue_resolves_all. Qed.
+Print Assumptions C09_send_queue_drained.
+(* (returning after the first failed block - the code before D32 - strands the blocks behind it) *)
+Theorem C09_send_queue_return_strands : process_queue QReturn [1; 1; 1]%nat [false; false; false] = [Some false; None; None].
+Proof. exact return_strands. Qed.
+Print Assumptions C09_send_queue_return_strands.
 
 Example C09_example :
   let m1 := select_req 7 in
